@@ -104,7 +104,12 @@ Definition order_for (v : las_version) (k : skind) (m : list N) : item_order :=
   | KCustom => ValueDescr
   | _ =>
       match lookup_order_entry v (sect_table_name k) order_definitions with
-      | Some (dflt, ex) => match order_from_exceptions m ex None with Some o => o | None => dflt end
+      | Some (dflt, ex) =>
+          (* orders.get(name, orders.get(name.upper(), default_order)) *)
+          match order_from_exceptions m ex None with
+          | Some o => o
+          | None => match order_from_exceptions (upper m) ex None with Some o => o | None => dflt end
+          end
       | None => ValueDescr
       end
   end.
